@@ -15,6 +15,8 @@
    (harness/c20_cbfail.py): nothing leaves the process except through the callback.
 5. Transport knobs in behaviour (harness/api_behaviour.py) and the nex.* settings at the consumer that puts structures on the wire
    (harness/api_wire.py): a real RMCClient on every kind of connection and negotiated minor version, client and server side.
+6. Setter sequences in every spelling of the optional arguments (harness/c20_optseq.py); transport settings x packet kinds x transports
+   decoded off the wire with an independent RC4 / zlib reference and the Lean payload model (harness/c20_knobwire.py).
 """
 import importlib, inspect, json, logging, os, re
 import anyio
@@ -28,7 +30,7 @@ import switch_tables as st
 import switch_cases as sc
 
 LEVEL = "proof"
-EXTRA_TARGETS = ["nxdrv_C18", "nxdrv_C02"]
+EXTRA_TARGETS = ["nxdrv_C18", "nxdrv_C02", "nxdrv_C08"]
 
 DEVID = 0x6265A1B2C3D4E5F6
 
@@ -733,6 +735,14 @@ def run(ctx):
                 "failing callback (harness/c20_cbfail.py): every public call of the seven callback clients x 11 connection-loss errors x first / second / every invocation "
                 "failing x with / without configured host and context, all other ways to the network replaced by spies: 0 requests outside the callback, configured "
                 "host / context on every invocation. "
+                "setter sequences (harness/c20_optseq.py): every set_* of the ten clients in every spelling its signature allows (optional arguments positionally up to "
+                "the j-th, every subset by keyword, explicitly as the default, omitted) x all pairs and triples of calls with distinct argument tuples on one object, with "
+                "and without a request in between: every public call = the request of a fresh client on which only the last call was made; nnas / nasc pairs replayed "
+                "through the Lean request model. "
+                "knobs on the wire (harness/c20_knobwire.py): prudp.compression x prudp.fragment_size x session key x substreams x UDP v0 / UDP v1 / TCP / WebSocket, "
+                "reliable and UNRELIABLE DATA in both directions on real endpoints in virtual time: every DATA payload, cipher undone by an independent RC4 with the "
+                "prescribed key, is the application's fragment (compression off) or a zlib frame of it (compression on); decoded also by the Lean payload model, "
+                "uncompressed sessions replayed through the Lean L1 endpoint model. "
                 "A case is non-trivial when it "
                 "reaches the code under test; distinct = distinct (kind, inputs)")
     api_inventory.run(ctx)
@@ -770,6 +780,13 @@ def run(ctx):
     api_behaviour.run(ctx, ctx.driver("C02"))
     import api_wire
     api_wire.run(ctx, drv)
+    import c20_optseq, time as _time
+    t0 = _time.time()
+    diffs += c20_optseq.run(ctx, drv, mods)
+    t1 = _time.time()
+    import c20_knobwire
+    diffs += c20_knobwire.run(ctx, ctx.driver("C08"), ctx.driver("C02"))
+    ctx.extra["seconds_optseq_knobwire"] = [round(t1 - t0, 1), round(_time.time() - t1, 1)]
     ctx.traces_validated += len(diffs) * 0 + ctx.evaluations
     for name in sorted(failed):
         if not [v for v in ctx.violations if not v[3]]:
